@@ -25,6 +25,8 @@ def leaf(rng):
                         "Identity", "RZ", "CRZ", "PhaseShift", "TemporaryAND", "TwoQubitComparator",
                         "SingleQubitComparator"])
         return {"c": c}
+    if r < 0.47:            # the operator whose allocations and frees do not balance (wire requests scale)
+        return {"c": "AliasSampling", "kw": {"num_coeffs": rng.randint(2, 5)}}
     k = rng.randrange(17)
     if k == 0:
         return {"c": "RX", "kw": {"precision": rng.choice([0.001, 0.01])}}
@@ -41,7 +43,8 @@ def leaf(rng):
         return {"c": "SemiAdder", "kw": {"max_register_size": rng.randint(1, 5)}}
     if k == 6:
         return {"c": "QROM", "kw": {"num_bitstrings": rng.randint(2, 6), "size_bitstring": rng.randint(1, 3),
-                                   "restored": rng.random() < 0.5}}
+                                   "restored": rng.random() < 0.5,
+                                   "select_swap_depth": rng.choice([None, None, 1, 2])}}
     if k == 7:
         return {"c": "AliasSampling", "kw": {"num_coeffs": rng.randint(2, 5)}}
     if k == 8:
@@ -125,7 +128,7 @@ def gs_str(g):
 
 
 def budget(rng):
-    return {"z": rng.choice([0, 0, 0, 1, 2, 3, 5, 10, 60, 200]), "a": rng.choice([0, 0, 0, 0, 1, 3, 70]),
+    return {"z": rng.choice([0, 0, 0, 1, 2, 3, 5, 10, 60, 200]), "a": rng.choice([0, 0, 0, 0, 1, 3, 70, 200, 400]),
             "tight": rng.random() < 0.25}
 
 
@@ -166,6 +169,9 @@ def gen_cases(rng, n):
     q([{"op": {"ctrl": qft["op"], "n": 2, "z": 1, "cw": 100}, "w": 0}, {"op": {"pow": {"adj": {"c": "T"}}, "p": 3}, "w": 1}],
       [{"b": s} for s in DEFAULT_GS] + [{"a": {"b": "T"}}], b0)
     r([alias, qft], [3, 0], 4, None, b0)
+    # unbalanced Deallocate under a scalar > 1 (frees 63 * 3 any_state wires)
+    r([{"op": {"adj": alias["op"]}}], [3], 2, None, {"z": 0, "a": 200, "tight": False})
+    q([{"op": {"pow": {"adj": alias["op"]}, "p": 2}, "w": None}, alias], None, {"z": 4, "a": 130, "tight": True})
     r([mcx], [-1], 5, None, {"z": 5, "a": 5, "tight": False})
     q([], None, b0)
     cases.append({"path": "op", "ops": [{"op": {"pow": {"pow": {"c": "X"}, "p": 2}, "p": 3}}], "gs": [{"b": "T"}, {"b": "Hadamard"}, {"b": "S"}], **b0})
@@ -173,7 +179,12 @@ def gen_cases(rng, n):
     while len(cases) < n:
         k = rng.random()
         gs = gen_gs(rng)
-        if k < 0.30:
+        if k < 0.04:        # unbalanced frees under a scalar: Adjoint(AliasSampling) with enough any_state wires
+            al = {"op": {"adj": {"c": "AliasSampling", "kw": {"num_coeffs": rng.randint(2, 5)}}}, "w": None}
+            es = dedup_ops([al] + [gen_entry(rng) for _ in range(rng.randint(0, 2))])
+            r(es, [rng.randint(2, 4)] + [rng.randint(0, 3) for _ in es[1:]], rng.randint(0, 9), gs,
+              {"z": rng.choice([0, 5, 100]), "a": rng.choice([300, 500]), "tight": rng.random() < 0.3})
+        elif k < 0.30:
             q([gen_entry(rng) for _ in range(rng.choice([0, 1, 1, 2, 3, 4, 6]))], gs, budget(rng))
         elif k < 0.45:
             es = dedup_ops([gen_entry(rng) for _ in range(rng.randint(1, 4))])
@@ -373,10 +384,19 @@ def run(ctx):
             if isinstance(e[1], list):
                 neg += sum(1 for a in e[1] if a[-1] < 0)
 
+    imbalanced = set()
+    for code, d in table["dec"]:
+        if isinstance(d, list) and sum(a[1] if a[0] == "A" else -a[1] if a[0] == "D" else 0 for a in d) != 0:
+            imbalanced.add(code)
+
+    def mentions(r, codes):
+        return r[1] in codes if r[0] == "b" else mentions(r[1], codes)
+
     # ---- direct oracles
     stat = {"q": 0, "r": 0, "op": 0, "errors": 0, "gate_set_default": 0, "symbolic_workflows": 0, "nesting>1": 0,
             "allocating": 0, "left_any_state": 0, "tight": 0, "tight_errors": 0, "add_groups_checked": 0,
-            "rep_groups_checked": 0, "negative_scalar": 0}
+            "rep_groups_checked": 0, "negative_scalar": 0,
+            "imbalanced_root_with_scalar>1": 0}
     distinct = set()
     for c, o in zip(cases, obs):
         stat[c["path"]] += 1
@@ -386,6 +406,8 @@ def run(ctx):
         stat["symbolic_workflows"] += any(d > 0 for d in ds)
         stat["nesting>1"] += any(d > 1 for d in ds)
         negsc = c["path"] == "r" and any(k < 0 for k in c["counts"])
+        if c["path"] == "r":
+            stat["imbalanced_root_with_scalar>1"] += any(mentions(e[0], imbalanced) and e[1] > 1 for e in o["wf"])
         stat["negative_scalar"] += negsc
         res = o["res"]
         if res == "ERR":
@@ -460,7 +482,7 @@ def run(ctx):
         "rule": "seeded generator: workflows over ~37 estimator operator classes (random parameters), 45% wrapped in Adjoint/Controlled/Pow up to depth 3, optional wire labels; entry points qfunc/Resources(scalars 0..7, rarely negative)/single operator; gate sets: default 35%, otherwise default subset + symbolic/extra names (15% may lack an indispensable gate); budgets zeroed 0..200, any_state 0..70, tight 25%; 25% additivity triples, 20% repetition groups; wire-manager histories of 1..20 grab/free requests (8% malformed: negative sizes); non-trivial = successful estimate with >1 distinct counted gate",
         "input_distribution": dict(stat, **{"hist_" + k: v for k, v in hstat.items()}),
         "oracle_table": {"base_operators": len(table["base"]), "decomp": len(table["dec"]), "adjoint": len(table["adj"]),
-                         "controlled": len(table["ctl"]), "pow": len(table["pow"]), "negative_counts": neg,
+                         "controlled": len(table["ctl"]), "pow": len(table["pow"]), "negative_counts": neg, "imbalanced_decomps": len(imbalanced),
                          "gate_set_names_without_operator": sorted(unknown)},
     })
     shown = 0
